@@ -1,5 +1,5 @@
 import html
-from collections import defaultdict
+from collections import defaultdict, namedtuple
 from functools import cached_property
 
 from arsenal import Integerizer
@@ -10,6 +10,9 @@ from genlm.grammar.linear import WeightedGraph
 
 # EPSILON = "ε"
 EPSILON = ""
+
+# nonterminal standing for an automaton state whose name is also an alphabet symbol
+_StateSymbol = namedtuple("_StateSymbol", "state")
 
 
 class WFSA:
@@ -494,41 +497,47 @@ class WFSA:
 
         if S is None:
             S = _gen_nt()
-        cfg = CFG(R=self.R, V=self.alphabet - {EPSILON}, S=S)
+        V = self.alphabet - {EPSILON}
+        cfg = CFG(R=self.R, V=V, S=S)
+
+        def nt(q):
+            # A state whose name is also an alphabet symbol (e.g., the states
+            # of `from_string("ab")`) must not be mistaken for a terminal.
+            return _StateSymbol(q) if q in V else q
 
         if recursion == "right":
             # add production rule for initial states
             for i, w in self.I:
-                cfg.add(w, S, i)
+                cfg.add(w, S, nt(i))
 
             # add production rule for final states
             for i, w in self.F:
-                cfg.add(w, i)
+                cfg.add(w, nt(i))
 
             # add other production rules
             for i, a, j, w in self.arcs():
                 if a == EPSILON:
-                    cfg.add(w, i, j)
+                    cfg.add(w, nt(i), nt(j))
                 else:
-                    cfg.add(w, i, a, j)
+                    cfg.add(w, nt(i), a, nt(j))
 
         else:
             assert recursion == "left"
 
             # add production rule for final states
             for i, w in self.F:
-                cfg.add(w, S, i)
+                cfg.add(w, S, nt(i))
 
             # add production rule for initial states
             for i, w in self.I:
-                cfg.add(w, i)
+                cfg.add(w, nt(i))
 
             # add other production rules
             for i, a, j, w in self.arcs():
                 if a == EPSILON:
-                    cfg.add(w, j, i)
+                    cfg.add(w, nt(j), nt(i))
                 else:
-                    cfg.add(w, j, i, a)
+                    cfg.add(w, nt(j), nt(i), a)
 
         return cfg
 
